@@ -17,6 +17,8 @@ from .cfg import walk_calls
 from .kinds import utext, call_name, key as mkkey
 
 NONE = "NONE"
+# calls at which the state of the first argument is recorded (consumers: C15-R4)
+PROBE_CALLS = {"complete_order"}
 
 
 class StatusModel:
@@ -98,6 +100,7 @@ class Typestate:
         self.L = legal_relation(self.model)
         self.sites = {}  # id(call) -> Site
         self._memo = {}
+        self.probes = {}  # id(call) -> (func, call, var text, set of states) for PROBE_CALLS
         self._setter_memo = {}
         self._prim_hit = False
         self._active = set()
@@ -387,6 +390,10 @@ class Typestate:
                     if var is not None:
                         st[var] = frozenset(after)
                     continue
+            if nm in PROBE_CALLS and call.args:
+                pv = self.recv_var(call.args[0], tracked)
+                rec = self.probes.setdefault(id(call), (func, call, utext(call.args[0]), set()))
+                rec[3].update(st.get(pv, m.all) if pv is not None else m.all)
             cs = self.res.site(call)
             if cs is None or not cs.callees:
                 continue
